@@ -28,6 +28,7 @@ class Ctx:
         self.trusted = []
         self.notes = {}
         self.rules_text = {}
+        self.errors = []
 
     # -- recording ------------------------------------------------------------------------------------
     def rule(self, rule_id, text):
@@ -48,6 +49,15 @@ class Ctx:
             raise AnalysisError(
                 f"rule {rule}: found {found} {what}, below the confirmed floor {minimum} "
                 f"(a rule that matches nothing would pass vacuously)")
+
+    def run(self, fn, *args, **kw):
+        """Run one rule in isolation: an AnalysisError of this rule does not stop the other rules; it makes the
+        whole check exit 2 only if no rule found a violation (see __main__)."""
+        try:
+            return fn(self, *args, **kw)
+        except AnalysisError as e:
+            self.errors.append(f"{getattr(fn, '__name__', fn)}: {e}")
+            return None
 
     def assume(self, text):
         if text not in self.assumptions:
